@@ -209,3 +209,13 @@ package server
 //@   at SetRule 2 assert [rollback-restores-count-and-labels] arg0 != nil && arg0 != callres("GetRule", 1) && arg0 != rule && (callres("GetReplicationConfig", 1).MaxReplicas < 9223372036854775808 ==> arg0.Count == callres("GetReplicationConfig", 1).MaxReplicas) && samearray(arg0.LocationLabels, callres("GetReplicationConfig", 1).LocationLabels) && len(arg0.LocationLabels) == len(callres("GetReplicationConfig", 1).LocationLabels)
 //@   option nosafety
 //@   modifies *
+
+// GetReplicationModeConfig hands out a COPY of the served replication-mode configuration, like every sibling getter: its
+// HTTP handler decodes the request body into what the getter returns before anything is validated (C18: a rejected
+// change leaves the served configuration exactly as it was).
+//@ func (*Server).GetReplicationModeConfig
+//@   props C18
+//@   requires optsTyped(s.persistOptions)
+//@   ensures [hands-out-a-copy] result != nil && (forall g *config.ReplicationModeConfig :: {old(allocated(g))} old(allocated(g)) ==> result != g)
+//@   option nosafety
+//@   modifies nothing
